@@ -1710,13 +1710,15 @@ func (l *lexer) error(pos ast.Pos, msg string) {
 
 // record stores err unless an error which takes precedence is already
 // recorded: an error of the source reader is kept, and of two syntax
-// errors the one found first in the source is kept, so that the result
-// does not depend on which goroutine reports first. l.mu must be held.
+// errors the one found first in the source is kept (at the same position,
+// which is that of the alias word for all text of an alias, the one whose
+// message sorts first), so that the result does not depend on which
+// goroutine reports first. l.mu must be held.
 func (l *lexer) record(err error) {
 	if l.err == nil {
 		l.err = err
 	} else if prev, ok := l.err.(Error); ok {
-		if e, ok := err.(Error); !ok || e.Pos.Before(prev.Pos) {
+		if e, ok := err.(Error); !ok || e.Pos.Before(prev.Pos) || e.Pos == prev.Pos && e.Msg < prev.Msg {
 			l.err = err
 		}
 	}
